@@ -2,8 +2,9 @@ from checkdef import part
 SPEC = {
     "level": "model_checking",
     "parts": [part("c03_restart", "plain", ["c03_restart.cpp"], timeout={"quick": 1500, "thorough": 7200})],
-    "rule": "26 configurations (restraints fixed/moving/staged, walls, linear, ABMD, ALB, histogram, histogramRestraint, "
-            "metadynamics with/without grids, keepHills, well-tempered, expandBoundaries, OPES, ABF 1-D/2-D, eABF, TI) x ALL "
+    "rule": "31 configurations (restraints fixed/moving/staged, walls, linear, ABMD, ALB, histogram, histogramRestraint, "
+            "metadynamics with/without grids, keepHills, well-tempered, expandBoundaries, OPES, ABF 1-D/2-D, 2-D with on-the-fly integration, eABF, TI, an "
+            "extended-Lagrangian variable with timeStepFactor 2, and six objects that the resuming instance lists in another order) x ALL "
             "trajectory words of length 4 (thorough 5) over {bin a, bin b, exact bin edge, below grid, above grid} "
             "(x {-1,+2} system force and length 3/4 where total forces are read) x EVERY stop step K x {text, binary} x "
             "{lagged, same-step} timing; each resumed run is compared step by step and by final state with the "
